@@ -32,8 +32,11 @@ import (
 
 // CAns is the proxy's answer to one CONNECT request.
 type CAns struct {
-	Status    int    `json:"status"`          // 200 = tunnel
-	Framing   string `json:"framing"`         // none | length | chunked : how the error page is announced
+	Status int `json:"status"` // 200 = tunnel
+	// none | length | chunked : how the error page is announced. ("silent": the proxy accepts the CONNECT and sends
+	// Sent (0 = nothing) incomplete header blocks. Never generated - pandora offers no setting that bounds that wait -,
+	// understood by the proxy so that a hand-written replay case can show what happens.)
+	Framing   string `json:"framing"`
 	Declared  int    `json:"declared"`        // announced body size (length) / size of the chunks sent (chunked)
 	Sent      int    `json:"sent"`            // bytes of the page really delivered (<= Declared)
 	EndChunk  bool   `json:"end_chunk"`       // chunked: the terminating 0-chunk is sent
